@@ -254,6 +254,10 @@ func refusalsIn(w *World, fn *ssa.Function, start ssa.Instruction, isDeliver fun
 			oks = append(oks, why)
 			continue
 		}
+		if why := helperVerdict(w, e, sanctioned, depth); why != "" {
+			oks = append(oks, why)
+			continue
+		}
 		if bad == "" {
 			bad = "refuses under " + w.edgeCondStr(e)
 		}
@@ -285,4 +289,61 @@ func fmtRefusals(n int, oks []string) string {
 		return "no refusing branch before the delivery"
 	}
 	return "every refusing branch is one the property allows: " + s
+}
+
+// helperVerdict: the branch tests the boolean result of a module helper (relayable, permitted,
+// ok …). The refusal is sanctioned when every return of the helper that can yield the refusing
+// truth value is itself reached only for a sanctioned reason (the must-facts at that return,
+// in the helper's own terms).
+func helperVerdict(w *World, e refusalEdge, sanctioned func(e refusalEdge) string, depth int) string {
+	if depth > 2 {
+		return ""
+	}
+	for _, f := range e.own {
+		if f.Op != "true" {
+			continue
+		}
+		call, idx := callOf(w.resolveLoad(f.X))
+		if call == nil {
+			continue
+		}
+		h := call.Call.StaticCallee()
+		if h == nil || !w.IsMod[h] || len(h.Blocks) == 0 {
+			continue
+		}
+		if idx < 0 {
+			idx = 0
+		}
+		if idx >= h.Signature.Results().Len() || h.Signature.Results().At(idx).Type().String() != "bool" {
+			continue
+		}
+		all, n := true, 0
+		why := ""
+		for _, r := range returnsOf(h) {
+			v := w.resolveLoad(r.Results[idx])
+			if k, isK := v.(*ssa.Const); isK && k.Value != nil {
+				if (k.Value.String() == "true") != f.Truth {
+					continue // this return yields the other truth value
+				}
+			}
+			n++
+			pe := refusalEdge{from: r.Block(), to: r.Block(), facts: w.importFacts(w.factsAt(r))}
+			if len(r.Block().Preds) == 1 {
+				pe.own = edgeFacts(r.Block().Preds[0], r.Block())
+			}
+			wy := sanctioned(pe)
+			if wy == "" {
+				wy = helperVerdict(w, pe, sanctioned, depth+1)
+			}
+			if wy == "" {
+				all = false
+			} else {
+				why = wy
+			}
+		}
+		if all && n > 0 {
+			return why + " (through " + fname(h) + ")"
+		}
+	}
+	return ""
 }
